@@ -117,7 +117,10 @@ def slash(X, Y):
 def power(X, n):
     R = X
     for _ in range(n - 1):
-        R = colon(R, X)
+        R2 = colon(R, X)
+        if list(R2) == list(R):  # products of more terms than there are only repeat earlier ones
+            break
+        R = R2
     return R
 
 
@@ -495,7 +498,10 @@ class Gen:
             return ["name", self.rng.choice(self.names)]
         if r < 0.80:
             self.k += 1
-            return ["scaled", self.rng.choice(["2", "2.5", "0.5", "3", "10"]), f"s{self.k}"]
+            # mostly a fresh name (no clash possible); sometimes a shared plain one, so that the same interaction can turn up
+            # under two scalings, written in either factor order (must be rejected)
+            nm = f"s{self.k}" if self.rng.random() < 0.8 else self.rng.choice([n for n in self.names if n.isidentifier()] or [f"s{self.k}"])
+            return ["scaled", self.rng.choice(["2", "2.5", "0.5", "3", "10"]), nm]
         return ["paren", self.sumchain(d - 1)]
 
     def prod(self, d):
@@ -507,7 +513,7 @@ class Gen:
             r2 = self.rng.random()
             if r2 < 0.06 and self.bad_exponents:  # exponents outside the grammar: must be rejected, never silently reinterpreted
                 return ["pow", self.rng.choice(["**", "^"]), base, self.rng.choice(["(1+2)", "(2+1)", "b", "2.0", "(0)", "00", "1.5", "(a)", "(2:1)"])]
-            return ["pow", self.rng.choice(["**", "^"]), base, self.rng.choice([1, 2, 2, 3]), "paren" if r2 < 0.2 else "plain"]
+            return ["pow", self.rng.choice(["**", "^"]), base, self.rng.choice([1, 2, 2, 3, 3, 10 ** 12, 99999999999999999999]), "paren" if r2 < 0.2 else "plain"]
         op = self.rng.choice([":", ":", "*", "/", "%in%"])
         left = self.prod(d - 1)
         right = self.prod(d - 1)
